@@ -342,6 +342,6 @@ pub fn run(mut chk: Check) -> ! {
     }
     let n = chk.scale(80_000, 800_000);
     chk.campaign(CampaignCfg::new("decode", n), case_decode);
-    chk.fuzz_stage("c06_datum", "fuzz_datum_c06", 400_000, 512, &crate::fuzzglue::seeds_datum(), crate::fuzzglue::case_datum_c06);
+    chk.fuzz_stage("c06_datum", "fuzz_datum_c06", 80_000, 512, &crate::fuzzglue::seeds_datum(), crate::fuzzglue::case_datum_c06);
     chk.finish()
 }
